@@ -4,21 +4,21 @@ import "fmt"
 
 // Schema cluster: small constructors and the fixed corpus (boundary schemas, witnesses of findings).
 
-func SchScalar(k byte) *SchTy { return &SchTy{K: k} }
-func SchList(nul bool, e *SchTy) *SchTy { return &SchTy{K: 'L', Nul: nul, Elem: e} }
-func SchMapOf(nul bool, e *SchTy) *SchTy { return &SchTy{K: 'M', Nul: nul, Elem: e} }
-func SchF(name string, t *SchTy) SchField { return SchField{Name: name, Key: name, T: t} }
-func SchFOpt(name string, t *SchTy) SchField { return SchField{Name: name, Key: name, Opt: true, T: t} }
-func SchFNul(name string, t *SchTy) SchField { return SchField{Name: name, Key: name, Nul: true, T: t} }
+func SchScalar(k byte) *SchTy                     { return &SchTy{K: k} }
+func SchList(nul bool, e *SchTy) *SchTy           { return &SchTy{K: 'L', Nul: nul, Elem: e} }
+func SchMapOf(nul bool, e *SchTy) *SchTy          { return &SchTy{K: 'M', Nul: nul, Elem: e} }
+func SchF(name string, t *SchTy) SchField         { return SchField{Name: name, Key: name, T: t} }
+func SchFOpt(name string, t *SchTy) SchField      { return SchField{Name: name, Key: name, Opt: true, T: t} }
+func SchFNul(name string, t *SchTy) SchField      { return SchField{Name: name, Key: name, Nul: true, T: t} }
 func SchFRen(name, key string, t *SchTy) SchField { return SchField{Name: name, Key: key, T: t} }
-func SchStruct(repr byte, fs ...SchField) *SchTy { return &SchTy{K: 'R', SRepr: repr, Fields: fs} }
+func SchStruct(repr byte, fs ...SchField) *SchTy  { return &SchTy{K: 'R', SRepr: repr, Fields: fs} }
 func SchJoin(delim string, fs ...SchField) *SchTy {
 	return &SchTy{K: 'R', SRepr: 'j', Delim: delim, Fields: fs}
 }
-func SchUnion(repr byte, ms ...SchMember) *SchTy { return &SchTy{K: 'U', URepr: repr, Members: ms} }
+func SchUnion(repr byte, ms ...SchMember) *SchTy      { return &SchTy{K: 'U', URepr: repr, Members: ms} }
 func SchM(disc string, kind byte, t *SchTy) SchMember { return SchMember{Disc: disc, Kind: kind, T: t} }
-func SchEnumS(es ...SchEnum) *SchTy { return &SchTy{K: 'E', Enums: es} }
-func SchEnumI(es ...SchEnum) *SchTy { return &SchTy{K: 'E', IntRepr: true, Enums: es} }
+func SchEnumS(es ...SchEnum) *SchTy                   { return &SchTy{K: 'E', Enums: es} }
+func SchEnumI(es ...SchEnum) *SchTy                   { return &SchTy{K: 'E', IntRepr: true, Enums: es} }
 
 type SchCorpusCase struct {
 	T     *SchTy
@@ -93,10 +93,14 @@ func SchCorpus() []SchCorpusCase {
 	add(SchList(false, sp()), 't', List(M(E("", Str("a"))), M(E("", Str("b")))), "list of stringprefix unions")
 	// kinded unions over chosen subsets of kinds: list without map, map without list, both
 	{
-		kl := func() *SchTy { return SchUnion('d', SchM("", 'l', SchList(false, SchScalar('I'))), SchM("", 'i', SchScalar('I'))) }
+		kl := func() *SchTy {
+			return SchUnion('d', SchM("", 'l', SchList(false, SchScalar('I'))), SchM("", 'i', SchScalar('I')))
+		}
 		kt := func() *SchTy { return SchUnion('d', SchM("", 'l', tu()), SchM("", 's', SchScalar('S'))) }
 		klo := func() *SchTy { return SchUnion('d', SchM("", 'l', SchList(true, SchScalar('S')))) }
-		km := func() *SchTy { return SchUnion('d', SchM("", 'm', SchMapOf(false, SchScalar('I'))), SchM("", 's', SchScalar('S'))) }
+		km := func() *SchTy {
+			return SchUnion('d', SchM("", 'm', SchMapOf(false, SchScalar('I'))), SchM("", 's', SchScalar('S')))
+		}
 		kmu := func() *SchTy { return SchUnion('d', SchM("", 'm', uk()), SchM("", 'b', SchScalar('B'))) }
 		klm := func() *SchTy {
 			return SchUnion('d', SchM("", 'l', SchList(false, SchScalar('I'))), SchM("", 'm', sm()), SchM("", 'y', SchScalar('Y')))
@@ -329,4 +333,27 @@ func SchShapeZoo() []*SchTy {
 		}
 	}
 	return out
+}
+
+// SchKeywordZoo: structs of every representation the generator supports whose fields are named after Go
+// keywords (type, func, map, range, select, var, chan, go ...), alone, as list and map values and as
+// members of keyed and kinded unions.  Such schemas compile only with an AdjunctCfg that renames the Go
+// field symbols (FieldSymbolLowerOverrides), which is what a user has to supply for them; they are
+// generated by the adjunct-configuration variant of the pipeline (schgen.RunAdj) only.
+func SchKeywordZoo() []*SchTy {
+	I, S := func() *SchTy { return SchScalar('I') }, func() *SchTy { return SchScalar('S') }
+	rm := func() *SchTy {
+		return SchStruct('m', SchFRen("type", "t", I()), SchFOpt("func", S()), SchFNul("map", I()),
+			SchField{Name: "range", Key: "range", Opt: true, Nul: true, T: S()},
+			SchF("select", SchStruct('t', SchF("var", I()), SchFOpt("go", S()))))
+	}
+	rt := func() *SchTy { return SchStruct('t', SchF("type", I()), SchFNul("func", S()), SchFOpt("chan", I())) }
+	rj := func() *SchTy { return SchJoin(":", SchF("type", S()), SchF("func", S()), SchF("default", S())) }
+	return []*SchTy{
+		rm(), rt(), rj(),
+		SchUnion('k', SchM("m", 'm', rm()), SchM("t", 'l', rt()), SchM("j", 's', rj())),
+		SchUnion('d', SchM("", 'm', rm()), SchM("", 'l', rt()), SchM("", 's', rj())),
+		SchStruct('m', SchF("interface", SchList(false, rj())), SchF("struct", SchMapOf(true, rt())),
+			SchFOpt("switch", rm()), SchF("case", SchList(true, rm()))),
+	}
 }
